@@ -3,7 +3,7 @@
 # development (full .vo build), and warm the C++ / OCaml caches the quick checks use.
 set -e
 cd "$(dirname "$0")"
-python3 tools/cpp2v.py tools/cpp2v_spec.json coq/theories/Gen --repo "${VERIF_REPO:-/repo}" || echo "setup: cpp2v reported unsupported functions (the owning check will report it)"
+python3 tools/cpp2v.py tools/cpp2v_specs coq/theories/Gen --repo "${VERIF_REPO:-/repo}" || echo "setup: cpp2v reported unsupported functions (the owning check will report it)"
 python3 - <<'PY'
 import sys
 sys.path.insert(0, '.')
